@@ -240,6 +240,69 @@ func ruleV12(c *Ctx) {
 	c.Floor("v1 default flags", len(names), 15)
 }
 
+func init() {
+	register(&Rule{ID: "V1-5", Doc: "test-then-set guards test what they set: wherever an option is joined into a coder's options under `if v, _ := GetOption(opts, X); ...`, the constructor joined inside the guarded block is the same X (a guard copied from the neighbouring method makes the second call a no-op when the first option is already on)", Run: ruleV15})
+}
+
+func ruleV15(c *Ctx) {
+	p := c.P
+	n := 0
+	for _, f := range p.FuncsIn("v1", "json", "jsontext") {
+		if f.Body() == nil {
+			continue
+		}
+		info := f.Info()
+		k := 0
+		for _, ifs := range findAll[*ast.IfStmt](f.Body()) {
+			as, ok := ifs.Init.(*ast.AssignStmt)
+			if !ok || len(as.Rhs) != 1 {
+				continue
+			}
+			call, ok := ast.Unparen(as.Rhs[0]).(*ast.CallExpr)
+			if !ok || len(call.Args) != 2 {
+				continue
+			}
+			if cf := Callee(info, call); cf == nil || cf.Name() != "GetOption" {
+				continue
+			}
+			tested := IdentOrSelObj(info, call.Args[1])
+			if tested == nil {
+				continue
+			}
+			// constructors joined inside the guarded block
+			var joined []types.Object
+			for _, jc := range findAll[*ast.CallExpr](ifs.Body) {
+				if cf := Callee(info, jc); cf == nil || cf.Name() != "JoinOptions" {
+					continue
+				}
+				for _, a := range jc.Args {
+					if ac, ok := ast.Unparen(a).(*ast.CallExpr); ok {
+						if o := IdentOrSelObj(info, ac.Fun); o != nil {
+							joined = append(joined, o)
+						}
+					}
+				}
+			}
+			if len(joined) == 0 {
+				continue
+			}
+			n++
+			k++
+			okSame := false
+			var names []string
+			for _, o := range joined {
+				names = append(names, o.Name())
+				if o == tested {
+					okSame = true
+				}
+			}
+			c.Oblige(fmt.Sprintf("guard-tests-what-it-sets:%s#%d", f.Name, k), ifs.Pos(), okSame,
+				"the guard reads option `"+tested.Name()+"` but the block joins `"+strings.Join(names, ", ")+"`: once `"+tested.Name()+"` is set the block never runs")
+		}
+	}
+	c.Floor("test-then-set option guards", n, 3)
+}
+
 func ruleV13(c *Ctx) {
 	p := c.P
 	ft := p.Flags()
